@@ -157,12 +157,13 @@ def boot(quiet=True):
     ns.helpers = helpers
     ns.hashes = hashes
     ns.import_s = _real_time.time() - t0
-    # time seams: module-level names, no source hook needed
-    for mod in (countmin, heavyhitters, hyperloglog, helpers):
-        mod.sleep = _sim_sleep
-    import zipfile
+    # time seams: module-level names, no source hook needed (off for the real anchors)
+    if os.environ.get("DSIM_REAL") != "1":
+        for mod in (countmin, heavyhitters, hyperloglog, helpers):
+            mod.sleep = _sim_sleep
+        import zipfile
 
-    zipfile.time = _ZipTime()
+        zipfile.time = _ZipTime()
     SK = ns
     _booted = True
     import gc
